@@ -24,3 +24,32 @@ Inductive fixed_kill (j : nat) : op -> Prop :=
 (* at(j) on the wrapper a slot holds *)
 Definition arr_at_slot st (s : slot) (j : nat) : option outcome :=
   match slot_arr st s with Some a => Some (arr_at (heap st) a j) | None => None end.
+
+(* an owning wrapper: OwnedArray, FixedArray, FixedArrayView *)
+Definition owning (s : slot) : Prop := match s with SEmpty | SView _ => False | _ => True end.
+
+(* ---- vocabulary of the frame theorem ---- *)
+(* the wrapper slots an operation constructs, assigns, resets, resizes, moves from or destroys *)
+Definition targets (o : op) : list nat :=
+  match o with
+  | SrcSet _ _ | SrcKill _ | SrcWrite _ _ _ => []
+  | Default i _ | FromSrc i _ _ | FromPtr i _ _ _ | FixedN i _ | MkFView i _ _ _ => [i]
+  | AssignSrc i _ | Reset i | ResetPtr i _ _ | Resize i _ _ | Destroy i => [i]
+  | CopyCtor i _ | CopyAssign i _ => [i]
+  | MoveCtor i j | MoveAssign i j => [i; j]
+  | Write i _ _ => [i]
+  end.
+(* the buffer a slot's wrapper designates *)
+Definition buf_of st i : option nat :=
+  match slot_arr st (slot_at st i) with Some a => option_map fst (a_ptr a) | None => None end.
+(* Write through wrapper i also changes what every wrapper sharing i's buffer shows (FixedArray copies and
+   FixedArrayViews share the allocation by design; an ArrayView aliases its source) *)
+Definition aliased_write st (o : op) (j : nat) : Prop :=
+  match o with Write i _ _ => buf_of st i <> None /\ buf_of st i = buf_of st j | _ => False end.
+(* no operation of the history targets j or writes through an alias of j *)
+Fixpoint untouched (st : state) (ops : list op) (j : nat) : Prop :=
+  match ops with
+  | [] => True
+  | o :: t => ~ In j (targets o) /\ ~ aliased_write st o j /\ untouched (step' true true st o) t j
+  end.
+
